@@ -22,6 +22,7 @@ from superrec2.model.tree_mapping import get_species_mapping
 from superrec2.utils.trees import LowestCommonAncestor
 
 from harness import common, gen, stubtex
+from harness.checks import c12_cli
 
 ID = "C12"
 RULE = (
@@ -63,7 +64,7 @@ ASSUMPTIONS = [
     "import inf); an infinite cost must be written float('inf') — recorded in the notes",
     "ordered algorithms on inconsistent leaf orders may have no solution: status 1, nothing written",
 ]
-OPEN = []
+OPEN = list(c12_cli.OPEN_CLI)
 
 ALGOS = ["exh", "lca", "thl", "base_spfs", "ext_spfs", "base_uspfs", "superdtl"]
 SUPER = {"base_spfs", "ext_spfs", "base_uspfs", "superdtl"}
@@ -675,6 +676,8 @@ def run(ctx, res):
         res.evaluations += 1
     res.dist["tie-only/labels+species"] += ctx.budget(400, 5000)
     tie(ctx, res, reqs)
+    # CLI glue model (eval_cost grammar, read_input, dump_results, reconcile/draw status logic)
+    c12_cli.run_cli(ctx, res)
 
 
 def model_call(algo, has_syn, solutions, o):
